@@ -3255,7 +3255,7 @@ class XonshParser(Parser):
 
     @memoize_left_rec
     def t_primary(self) -> Any | None:
-        # t_primary: t_primary '.' NAME &t_lookahead | t_primary '[' slices ']' &t_lookahead | t_primary genexp &t_lookahead | t_primary '(' arguments? ')' &t_lookahead | sub_procs &t_lookahead | env_atom &t_lookahead | atom &t_lookahead
+        # t_primary: t_primary '.' NAME &t_lookahead | t_primary '[' slices ']' &t_lookahead | t_primary genexp &t_lookahead | t_primary '(' arguments? ')' &t_lookahead | sub_procs &t_lookahead | env_atom &t_lookahead | (".".help_atom+) &t_lookahead | atom &t_lookahead
         mark = self._mark()
         _lnum, _col = self._tokenizer.peek().start
         if (
@@ -3294,6 +3294,9 @@ class XonshParser(Parser):
         self._reset(mark)
         if (a := self.env_atom()) and (self.positive_lookahead(self.t_lookahead)):
             return a
+        self._reset(mark)
+        if (a := self.gathered(self.help_atom, self.expect, ".")) and (self.positive_lookahead(self.t_lookahead)):
+            return self.expand_help(a, **self.span(_lnum, _col))
         self._reset(mark)
         if (a := self.atom()) and (self.positive_lookahead(self.t_lookahead)):
             return a
